@@ -11,13 +11,15 @@ PROPERTY = "C03"
 
 META = dict(
     bounds=dict(
-        quick="templates: reaction centres of all reactions on k=2 atoms (element in {C,O}, hcount per side 0..1, charge per "
-              "side 0..1, bond order per side 0..2) that are hydrogen- and charge-balanced over the centre; substrates: all "
-              "shapes on <=3 atoms (element {C,O}, hcount 0..2, charge 0..1, order 1..2, all symbolic; 3-atom substrates with hcount 0..1 and charge 0); forward and "
+        quick="templates: reaction centres of all reactions on k=2 atoms and (without hydrogens, on reduced substrate domains) k=3 atoms (element in {C,O}, hcount per side 0..1, "
+              "charge per side 0..1, bond order per side 0..2) that are hydrogen- and charge-balanced over the centre; "
+              "substrates: all shapes on <=3 atoms (element {C,O}, hcount 0..2, charge 0..1, order 1..2, all symbolic) and, for "
+              "k=2, all shapes on 4 atoms with <=3 bonds (hcount 0..1, charge 0); forward and "
               "invert=True; strategies all/comp/bt; implicit-hydrogen mode (implicit_temp=True, explicit_h=False); explicit-hydrogen "
               "mode (default flags) for two concrete templates with hydrogen atoms in the centre (keto-enol shift, MPV transfer "
               "hydrogenation with two independent hydrogen migrations, esterification as full-ITS template with a non-migrating explicit hydrogen) on their skeleton with symbolic substituents and every numbering",
-        thorough="k=3 templates on substrates <=3 atoms, k=2 templates on substrates with 4 atoms",
+        thorough="more strategy/direction combinations for k=3, all strategies on 4-atom substrates, k=3 templates without "
+                 "hydrogens on 4-atom substrates",
     ),
     outside=["smarts_list / _to_smarts (RDKit) and everything said about output strings", "templates with wildcards, "
              "partial=True", "explicit-hydrogen mode beyond the two listed template families", "templates that are not balanced "
@@ -238,25 +240,23 @@ HARNESSES = {"instance": h_instance, "explicit": h_explicit}
 
 def shards(tier, seed):
     sh = []
+    q = tier == "quick"
     hosts = [(n, es) for n in (2, 3) for es in all_shapes(n)]
-    i = 0
     for hn, he in hosts:
         for strategy in ("all", "comp", "bt"):
             for invert in (False, True):
-                i += 1
-                if tier == "quick" and hn == 3 and (i % 2):
-                    continue
-                sh.append(dict(h="instance", params=dict(k=2, hn=hn, hedges=he, strategy=strategy, invert=invert,
-                                                         lite=(tier == "quick" and hn == 3))))
-    sh.append(dict(h="explicit", params=dict(family="enol")))
-    sh.append(dict(h="explicit", params=dict(family="MPV")))
-    sh.append(dict(h="explicit", params=dict(family="ester")))
-    if tier == "thorough":
-        for hn, he in hosts:
-            if hn == 3:
-                for strategy in ("all", "bt"):
-                    sh.append(dict(h="instance", params=dict(k=3, hn=hn, hedges=he, strategy=strategy, invert=False, hmax_t=1)))
-        for he in all_shapes(4):
-            if len(he) <= 3:
-                sh.append(dict(h="instance", params=dict(k=2, hn=4, hedges=he, strategy="all", invert=False)))
+                sh.append(dict(h="instance", params=dict(k=2, hn=hn, hedges=he, strategy=strategy, invert=invert)))
+    for hn, he in hosts:
+        if hn == 3:
+            for strategy, invert in ((("all", False), ("bt", True)) if q else (("all", False), ("all", True), ("bt", False), ("comp", True))):
+                sh.append(dict(h="instance", params=dict(k=3, hn=hn, hedges=he, strategy=strategy, invert=invert,
+                                                         hmax_t=0 if q else 1, lite=q)))
+    for he in all_shapes(4):
+        if len(he) <= 3:
+            for strategy in (("all",) if q else ("all", "comp", "bt")):
+                sh.append(dict(h="instance", params=dict(k=2, hn=4, hedges=he, strategy=strategy, invert=False, lite=q)))
+            if not q:
+                sh.append(dict(h="instance", params=dict(k=3, hn=4, hedges=he, strategy="all", invert=False, hmax_t=0, lite=True)))
+    for fam in ("enol", "MPV", "ester"):
+        sh.append(dict(h="explicit", params=dict(family=fam)))
     return sh
